@@ -27,16 +27,16 @@ impl Paths {
     }
 
     fn kern_ir_file(dir: &Path, location: &NormalizedLocation) -> PathBuf {
-        let filename = "kern_".to_string()
+        let name = "kern_".to_string()
             + &location
                 .iter()
                 // the shortest text that reads back as exactly this coordinate: rounding
                 // here would send masters that sit close together to the same file
                 .map(|(tag, pos)| format!("{tag}_{}", pos.to_f64()))
                 .collect::<Vec<_>>()
-                .join("_")
-            + ".yml";
-        dir.join(filename)
+                .join("_");
+        // an axis tag may hold characters that mean something in a path, e.g. '/'
+        dir.join(string_to_filename(&name, ".yml"))
     }
 
     pub fn target_file(dir: &Path, id: &WorkId) -> PathBuf {
